@@ -149,6 +149,13 @@ class StmtMixin:
     def x_Assign(self, s, st):
         outs = []
         for st2, v in self.ev(s.value, st, outs):
+            if len(s.targets) == 1 and isinstance(s.targets[0], ast.Name):
+                nm = s.targets[0].id
+                st2.env.pop('$alias:' + nm, None)
+                if isinstance(s.value, (ast.Subscript, ast.Attribute)) and isinstance(v.ty, (TSeq, TSet, TMap)):
+                    # `x = obj.d[k]` binds x to a mutable container that lives on the heap: in-place mutations
+                    # through x are written through to that location
+                    st2.env['$alias:' + nm] = V(TPy('lvalue'), s.value)
             cur = [st2]
             for t in s.targets:
                 nxt = []
@@ -338,6 +345,17 @@ class StmtMixin:
         # constant-fold TYPE_CHECKING / version tests
         txt = ast.unparse(s.test)
         if txt == 'TYPE_CHECKING':
+            return self.exec_block(s.orelse, st) if s.orelse else [Outcome('normal', st)]
+        import re as _re
+        mv = _re.fullmatch(r'sys\.version_info\s*(>=|<=|<|>)\s*\((\d+),\s*(\d+)\)', txt)
+        if mv:
+            # constant-folded for the interpreter the repository runs under (3.12); reported as an assumption
+            cur = (3, 12)
+            ref = (int(mv.group(2)), int(mv.group(3)))
+            taken = {'>=': cur >= ref, '<=': cur <= ref, '<': cur < ref, '>': cur > ref}[mv.group(1)]
+            self.assumptions_used['fold:version'] = 'sys.version_info branches are constant-folded for CPython 3.12'
+            if taken:
+                return self.exec_block(s.body, st)
             return self.exec_block(s.orelse, st) if s.orelse else [Outcome('normal', st)]
         for st2, v in self.ev(s.test, st, outs):
             t = z3.simplify(self.truthy(v, st2))
